@@ -757,6 +757,14 @@ class SuiteM(engine.Suite):
                                                                   [("add", 0, case["market_id"], side == 7, None, max(1, vol // 3), None),
                                                                    ("qstate",), ("exec",), ("qstate",)]])
                 levels = sorted({tr.orders[x[0]]["price"] for x in st[side] if x[0] in tr.orders and tr.orders[x[0]]["price"] is not None})
+                # ... and prices between two resting levels (a limit that reaches some levels but not all)
+                tk = case["tick"]
+                between = sorted({(a + b) / 2.0 - ((a + b) / 2.0) % tk for a, b in zip(levels, levels[1:]) if b - a > tk})
+                for lv in between:
+                    for vol in sorted({2, 3, 4, max(1, tot // 2), tot}):
+                        yield dict(case, ops=pre + [("run", True), ("add", 0, case["market_id"], side == 7, float(lv), vol, None),
+                                                    ("qstate",), ("exec",), ("qstate",)])
+                levels = sorted(set(levels) | set(between))
                 for lv in levels:
                     for vol in (1, 2, 3):
                         yield dict(case, ops=pre + [("run", True), ("add", 0, case["market_id"], side == 7, float(lv), vol, None),
@@ -768,6 +776,15 @@ class SuiteM(engine.Suite):
                         yield dict(case, ops=pre + [("run", True)] + [x for _ in range(n_pre) for x in
                                                                       [("add", 0, case["market_id"], side == 7, None, 1, None), ("exec",)]] +
                                    [("add", 0, case["market_id"], side == 7, float(lv), 2, None), ("qstate",), ("exec",), ("qstate",)])
+                # continuous trading against the damaged side: short random sequences of small aggressive limit orders at the
+                # resting levels, a round after each (damage done by one round often shows only two or three rounds later)
+                if levels:
+                    for _ in range(120):
+                        ext = [("run", True)]
+                        for _k in range(rng.choice([2, 3, 3, 4])):
+                            ext += [("add", 0, case["market_id"], side == 7, float(rng.choice(levels)), rng.choice([1, 1, 2, 3]), None),
+                                    ("qstate",), ("exec",), ("qstate",)]
+                        yield dict(case, ops=pre + ext)
         for cut in range(len(ops), 1, -max(1, len(ops) // 15)):
             yield dict(case, ops=ops[:cut] + [("qstate",)])
 
